@@ -84,29 +84,27 @@ def _configure_django():
 
 @functools.lru_cache(None)
 def context_table():
-    """ordered {canonical name: (context object, [all exported names])}; aliases of one object are merged"""
+    """ordered {canonical name: (context object | exception, [all exported names])}; aliases of one object are merged.
+    (type() instead of isinstance(): touching __class__ of a LazyCryptContext would load it)"""
     from passlib.context import CryptContext
+
+    def is_ctx(o):
+        return isinstance(type(o), type) and issubclass(type(o), CryptContext)
 
     found = []  # (module label, attr, obj, in_all)
     import passlib.apps as A
 
     names = list(A.__all__) + sorted(n for n in vars(A) if n not in A.__all__)
     for n in names:
-        o = getattr(A, n, None)
-        if isinstance(o, CryptContext) and not n.startswith("_") and n not in UNDOCUMENTED:
+        o = vars(A).get(n)
+        if is_ctx(o) and not n.startswith("_") and n not in UNDOCUMENTED:
             found.append(("apps", n, o, n in A.__all__))
     import passlib.hosts as Ho
 
     for n in Ho.__all__:
-        o = getattr(Ho, n, None)
-        if isinstance(o, CryptContext):
+        o = vars(Ho).get(n)
+        if is_ctx(o):
             found.append(("hosts", n, o, True))
-    try:
-        import passlib.apache as Ap
-
-        found.append(("apache", "htpasswd_context", Ap.htpasswd_context, True))
-    except Exception as e:  # noqa: BLE001
-        raise core.HarnessError(f"import passlib.apache failed: {e!r}")
     groups = {}
     for mod, n, o, in_all in found:
         groups.setdefault((mod, id(o)), []).append((not in_all, len(n), n, o))
@@ -115,11 +113,17 @@ def context_table():
         items.sort(key=lambda t: t[:3])
         canon = f"{mod}.{items[0][2]}"
         table[canon] = (items[0][3], [f"{mod}.{t[2]}" for t in items])
-    _configure_django()
-    from passlib.ext.django import utils as U
+    try:
+        import passlib.apache as Ap
 
+        table["apache.htpasswd_context"] = (Ap.htpasswd_context, ["apache.htpasswd_context"])
+    except Exception as e:  # noqa: BLE001
+        table["apache.htpasswd_context"] = (e, ["apache.htpasswd_context"])
+    _configure_django()
     for p in DJANGO_PRESETS:
         try:
+            from passlib.ext.django import utils as U
+
             cfg = U.get_preset_config(p)
             table[f"django_preset.{p}"] = (CryptContext.from_string(cfg), [f"django_preset.{p}"])
         except Exception as e:  # noqa: BLE001
@@ -129,7 +133,7 @@ def context_table():
 
 def get_context(cname):
     o = context_table()[cname][0]
-    if isinstance(o, Exception):
+    if isinstance(type(o), type) and issubclass(type(o), Exception):
         raise o
     return o
 
@@ -225,6 +229,30 @@ def eval_ctx(case):
                  wrongs=case.get("wrongs", True))
 
 
+def eval_hash(case):
+    """the scheme must be able to make the hash at all (admissible password, documented settings)"""
+    try:
+        make_hash(case)
+    except core.HarnessError:
+        raise
+    except Exception as e:  # noqa: BLE001
+        name = case["scheme"]
+        return [(f"C17|scheme:{name}|hash:raises:{_exc(e)}",
+                 f"{name}.using(**{case.get('settings')!r}).hash({case['password']!r}, **{case.get('ctxkw')!r}) raised {e!r} (scheme of {case['context']} and others)")]
+    return []
+
+
+def eval_ctx_hash(case):
+    try:
+        make_hash(case)
+    except core.HarnessError:
+        raise
+    except Exception as e:  # noqa: BLE001
+        return [(f"C17|{case['context']}|hash:{case['scheme']}:raises:{_exc(e)}",
+                 f"{case['context']}.handler({case['scheme']!r}).hash({case['password']!r}) raised {e!r}")]
+    return []
+
+
 def eval_sample(case):
     cname, name, h = case["context"], case["scheme"], case["hash"]
     C = get_context(cname)
@@ -306,62 +334,97 @@ def location_of(name):
     return path.split(":")[0].rsplit(".", 1)[-1]
 
 
-def eval_registry(case):
-    name, via = case["name"], case["via"]
-    comp = f"registry:{location_of(name)}"
+CONTROLS = ("md5_crypt", "hex_sha1", "ldap_salted_sha1")
+
+
+def _probe(name, via):
     r = subprocess.run([sys.executable, "-W", "ignore", "-c", REG_SCRIPT, name, via], capture_output=True, text=True,
                        env=dict(os.environ), timeout=300)
     try:
-        o = json.loads(r.stdout.strip().splitlines()[-1])
+        return json.loads(r.stdout.strip().splitlines()[-1])
     except Exception:  # noqa: BLE001
         raise core.HarnessError(f"registry probe {name}/{via} produced no result: {r.stdout[-300:]} {r.stderr[-500:]}")
-    out = []
+
+
+def _fresh_failures(name, via):
+    """[(failure class, description)] of one fresh-interpreter probe"""
+    o = _probe(name, via)
     if "error" in o:
-        return [(f"C17|{comp}|{via}:raises:{o['error']}", f"first access to {name!r} via {via} raised {o['error_text']}")]
+        return [(f"raises:{o['error']}", f"first access to {name!r} via {via} raised {o['error_text']}")]
     if not o["listed"]:
         raise core.HarnessError(f"{name} not listed in the fresh process")
+    out = []
     if o["first_name"] != name or o["a_name"] != name or o["b_name"] != name:
-        out.append((f"C17|{comp}|{via}:name_mismatch",
-                    f"{name!r} via {via}: hasher names first={o['first_name']!r} registry={o['a_name']!r} passlib.hash={o['b_name']!r}"))
+        out.append(("name_mismatch", f"{name!r} via {via}: hasher names first={o['first_name']!r} registry={o['a_name']!r} passlib.hash={o['b_name']!r}"))
     if not o["a_is_b"] or not o["again"]:
-        out.append((f"C17|{comp}|{via}:registry_and_proxy_differ", f"get_crypt_handler({name!r}) and passlib.hash.{name} are different objects after first access via {via}"))
+        out.append(("registry_and_proxy_differ", f"get_crypt_handler({name!r}) and passlib.hash.{name} are different objects after first access via {via}"))
     if not o["first_is_a"]:
-        out.append((f"C17|{comp}|{via}:not_the_registered_object", f"the object obtained for {name!r} via {via} is not the registered hasher"))
+        out.append(("not_the_registered_object", f"the object obtained for {name!r} via {via} is not the registered hasher"))
     if o["misfiled"]:
-        out.append((f"C17|{comp}|{via}:side_loaded_under_wrong_name", f"after loading {name!r} via {via} the registry stores {o['misfiled']} under names that are not their own"))
+        out.append(("side_loaded_under_wrong_name", f"after loading {name!r} via {via} the registry stores {o['misfiled']} under names that are not their own"))
     if not o["loaded_after"] or not o["is_handler"]:
-        out.append((f"C17|{comp}|{via}:not_loaded", f"{name!r} via {via}: loaded_after={o['loaded_after']} is_crypt_handler={o['is_handler']}"))
+        out.append(("not_loaded", f"{name!r} via {via}: loaded_after={o['loaded_after']} is_crypt_handler={o['is_handler']}"))
     return out
 
 
-def eval_registry_warm(case):
-    """same identities in a process where everything is already loaded"""
+def _keyed(name, via, failures, control_failures):
+    """generic key when unrelated control names fail the same way (one defect of the shared machinery), else per location"""
+    out = []
+    for fc, desc in failures:
+        generic = all(fc in {c for c, _ in cf} for cf in control_failures)
+        comp = "registry" if generic else f"registry:{location_of(name)}"
+        out.append((f"C17|{comp}|{via}:{fc}", desc + (" (control names fail alike: shared registry machinery)" if generic else "")))
+    return out
+
+
+def eval_registry(case):
+    name, via = case["name"], case["via"]
+    fails = _fresh_failures(name, via)
+    if not fails:
+        return []
+    controls = [_fresh_failures(c, via) for c in CONTROLS if location_of(c) != location_of(name)]
+    return _keyed(name, via, fails, controls)
+
+
+def _warm_failures(name):
     from passlib import registry
     import passlib.hash as PH
 
-    name = case["name"]
-    comp = f"registry:{location_of(name)}"
     out = []
     try:
         a = registry.get_crypt_handler(name)
         b = getattr(PH, name)
-        forms = {"upper": name.upper(), "dash": name.replace("_", "-"), "mixed": name.title().replace("_", "-")}
-        others = {k: registry.get_crypt_handler(v) for k, v in forms.items()}
     except Exception as e:  # noqa: BLE001
-        return [(f"C17|{comp}|warm:raises:{_exc(e)}", f"{name!r}: {e!r}")]
+        return [(f"raises:{_exc(e)}", f"{name!r}: {e!r}")]
     if a.name != name:
-        out.append((f"C17|{comp}|warm:name_mismatch", f"get_crypt_handler({name!r}).name = {a.name!r}"))
+        out.append(("name_mismatch", f"get_crypt_handler({name!r}).name = {a.name!r}"))
     if a is not b:
-        out.append((f"C17|{comp}|warm:registry_and_proxy_differ", f"get_crypt_handler({name!r}) is not passlib.hash.{name}"))
-    for k, o in others.items():
+        out.append(("registry_and_proxy_differ", f"get_crypt_handler({name!r}) is not passlib.hash.{name}"))
+    forms = {"upper": name.upper(), "dash": name.replace("_", "-"), "mixed": name.title().replace("_", "-")}
+    for k, v in forms.items():
+        try:
+            o = registry.get_crypt_handler(v)
+        except Exception as e:  # noqa: BLE001
+            out.append((f"alias_{k}:raises:{_exc(e)}", f"get_crypt_handler({v!r}) raised {e!r}"))
+            continue
         if o is not a:
-            out.append((f"C17|{comp}|warm:alias_{k}:not_the_registered_object", f"get_crypt_handler({forms[k]!r}) is not get_crypt_handler({name!r}) (got {getattr(o, 'name', o)!r})"))
+            out.append((f"alias_{k}:not_the_registered_object", f"get_crypt_handler({v!r}) is not get_crypt_handler({name!r}) (got {getattr(o, 'name', o)!r})"))
     if name not in dir(PH):
-        out.append((f"C17|{comp}|warm:not_in_dir", f"{name!r} missing from dir(passlib.hash)"))
+        out.append(("not_in_dir", f"{name!r} missing from dir(passlib.hash)"))
     return out
 
 
-EVALS = {"ctx": eval_ctx, "sample": eval_sample, "setup": eval_setup, "registry": eval_registry, "registry_warm": eval_registry_warm}
+def eval_registry_warm(case):
+    """same identities in a process where handlers are already loaded"""
+    name = case["name"]
+    fails = _warm_failures(name)
+    if not fails:
+        return []
+    controls = [_warm_failures(c) for c in CONTROLS if location_of(c) != location_of(name)]
+    return _keyed(name, "warm", fails, controls)
+
+
+EVALS = {"hash": eval_hash, "ctx_hash": eval_ctx_hash, "ctx": eval_ctx, "sample": eval_sample, "setup": eval_setup, "registry": eval_registry, "registry_warm": eval_registry_warm}
 
 
 def replay(case):
@@ -385,8 +448,14 @@ def work_scheme(task):
                 try:
                     h = make_hash(base)
                 except Exception as e:  # noqa: BLE001
+                    # every settings_grid entry is a documented, admissible setting: a scheme of a shipped context that
+                    # cannot produce the hash cannot have it recognised either
+                    acc.ev()
                     acc.count("hash_refused")
                     acc.outcome(("hash_refused", name, _exc(e)))
+                    case = dict(base, part="hash", context=task["contexts"][0])
+                    for key, desc in eval_hash(case):
+                        acc.violation(key, desc, case)
                     continue
                 for cname in task["contexts"]:
                     case = dict(base, context=cname, hash=h)
@@ -424,6 +493,8 @@ def work_cases(task):
             except Exception as e:  # noqa: BLE001
                 acc.count("hash_refused")
                 acc.outcome(("context_hash_refused", case["context"], case["scheme"], _exc(e)))
+                acc.violation(f"C17|{case['context']}|hash:{case['scheme']}:raises:{_exc(e)}",
+                              f"{case['context']}.handler({case['scheme']!r}).hash({case['password']!r}) raised {e!r}", dict(case, part="ctx_hash"))
                 continue
         vs = EVALS[part](case)
         acc.outcome((part, "viol" if vs else "ok"))
@@ -441,10 +512,8 @@ def run(ctx):
     listed = {}
     for cname, (obj, names) in table.items():
         setup_cases.append({"part": "setup", "context": cname})
-        if isinstance(obj, Exception):
-            continue
         try:
-            schemes = list(obj.schemes())
+            schemes = list(get_context(cname).schemes())
         except Exception:  # noqa: BLE001
             continue  # reported by the setup case
         listed[cname] = schemes
